@@ -2,7 +2,7 @@
    the number of streams parked on it; an operation streams are parked on is
    registered and has no removal scheduled. *)
 From Coq Require Import Lia.
-From VF Require Export Sched.ProofsPrims Sched.ProofsExec Sched.ProofsRoute.
+From VF Require Export Sched.ProofsStreams Sched.ProofsPrims Sched.ProofsExec Sched.ProofsRoute.
 Open Scope Z_scope.
 
 Definition parked_on (p : pc) : option nat :=
@@ -242,6 +242,9 @@ Ltac t_V :=
   | |- V (upd_task _ _ _) => apply V_upd_task; [intros ? ?; cbn; first [auto | (let Hin := fresh "Hin" in intro Hin; apply filter_In in Hin; tauto)] | assumption]
   | |- V (upd_op _ _ _) => apply V_upd_op; [intros ?; cbn; repeat split; auto | assumption]
   | |- V (set s_tasks _ (set s_ntasks S _)) => apply V_newtask; [reflexivity | assumption]
+  | |- V (set s_inflight _ (set s_tasks ?g (set s_ntasks S ?s1))) =>
+    apply (V_frame (set s_tasks g (set s_ntasks S s1)));
+    [reflexivity | reflexivity | reflexivity | reflexivity | apply V_newtask; [reflexivity | assumption]]
   | |- _ => (eapply V_frame; [ | | | | eassumption]); frame_eq
   end.
 
@@ -516,9 +519,297 @@ Proof.
   pose proof (V_detach s c o PDone eq_refl Hp HV) as H1. fold s1 in H1.
   apply (V_maybe_start_cleanup _ o) in H1.
   destruct (msc_frame o s1) as [F1 [F2 F3]]. destruct (msc_frame o (set_call c PDone s1)) as [G1 [G2 G3]].
-  eapply V_frame; [ | | | |exact H1]; cbn.
-  - rewrite F1, G1. reflexivity.
-  - symmetry. apply msc_ops_indep; reflexivity.
-  - rewrite F2, G2. reflexivity.
-  - rewrite F3, G3. reflexivity.
+  eapply V_frame; [ | | | |exact H1].
+  - change (aset Nat.eqb c PDone (s_calls (maybe_start_cleanup o s1)) = s_calls (maybe_start_cleanup o (set_call c PDone s1))).
+    rewrite F1, G1. reflexivity.
+  - change (s_ops (maybe_start_cleanup o s1) = s_ops (maybe_start_cleanup o (set_call c PDone s1))).
+    symmetry. apply msc_ops_indep; reflexivity.
+  - change (s_nops (maybe_start_cleanup o s1) = s_nops (maybe_start_cleanup o (set_call c PDone s1))).
+    rewrite F2, G2. reflexivity.
+  - change (s_tasks (maybe_start_cleanup o s1) = s_tasks (maybe_start_cleanup o (set_call c PDone s1))).
+    rewrite F3, G3. reflexivity.
+Qed.
+
+(* ---- frames of the call table -------------------------------------------------------------------------------- *)
+Definition PCf (c : nat) (p : option pc) (s : state) : Prop := aget Nat.eqb c (s_calls s) = p.
+Lemma PCf_frame : forall c p s s', s_calls s' = s_calls s -> PCf c p s -> PCf c p s'.
+Proof. unfold PCf. intros c p s s' ->. auto. Qed.
+Ltac t_pc := intros; (eapply PCf_frame; [|eassumption]); frame_eq.
+
+Definition keeps_calls (l : list (nat * pc)) (s : state) : Prop := s_calls s = l.
+Lemma keeps_calls_frame : forall l s s', s_calls s' = s_calls s -> keeps_calls l s -> keeps_calls l s'.
+Proof. unfold keeps_calls. intros l s s' ->. auto. Qed.
+Ltac t_kc := intros; (eapply keeps_calls_frame; [|eassumption]); frame_eq.
+Ltac kc_go := match goal with |- s_calls ?e = s_calls ?s => change (keeps_calls (s_calls s) e);
+  let H := fresh in assert (H : keeps_calls (s_calls s) s) by reflexivity; fr_go (keeps_calls (s_calls s)) t_kc end.
+
+Lemma calls_enter : forall t s, s_calls (enter t s) = s_calls s. Proof. intros. kc_go. Qed.
+Lemma calls_complete_task : forall t r b s, s_calls (complete_task t r b s) = s_calls s. Proof. intros. kc_go. Qed.
+Lemma calls_cancel_all_queued : forall i r s, s_calls (cancel_all_queued i r s) = s_calls s. Proof. intros. kc_go. Qed.
+Lemma calls_maybe_start_cleanup : forall o s, s_calls (maybe_start_cleanup o s) = s_calls s. Proof. intros. kc_go. Qed.
+Lemma calls_new_operation : forall t p i m s, s_calls (fst (new_operation t p i m s)) = s_calls s. Proof. intros. kc_go. Qed.
+Lemma calls_assign_next : forall w s, s_calls (fst (assign_next_queued_task w s)) = s_calls s. Proof. intros. kc_go. Qed.
+
+(* V, and call c is not parked on an operation *)
+Definition VU (c : nat) (s : state) : Prop := V s /\ opark (aget Nat.eqb c (s_calls s)) = None.
+
+Lemma VU_lift : forall c s s', (V s -> V s') -> s_calls s' = s_calls s -> VU c s -> VU c s'.
+Proof. unfold VU. intros c s s' HV Hc [H1 H2]. rewrite Hc. auto. Qed.
+
+Lemma VU_setcall : forall c s p', parked_on p' = None -> VU c s -> VU c (set_call c p' s).
+Proof.
+  unfold VU. intros c s p' Hp [HV Hu]. split; [apply V_setcall_same; [rewrite Hu, Hp; reflexivity|exact HV]|].
+  unfold set_call. cbn. rewrite (aget_aset_same Nat.eqb nat_eqb_eq). exact Hp.
+Qed.
+
+Ltac t_VU :=
+  intros;
+  lazymatch goal with
+  | |- VU ?c (set_call ?c _ _) => apply VU_setcall; [reflexivity | assumption]
+  | |- VU _ (?f ?s) =>
+    apply (VU_lift _ s); [ let H := fresh in intro H; revert H; generalize s; t_V | frame_eq | assumption ]
+  end.
+
+Ltac vu_leaf :=
+  idtac;
+  lazymatch goal with
+  | |- VU _ (maybe_start_cleanup ?o ?s) => apply (VU_lift _ s); [apply V_maybe_start_cleanup | apply calls_maybe_start_cleanup | ]
+  | |- VU _ (fst (new_operation ?t ?p ?i ?m ?s)) => apply (VU_lift _ s); [apply V_new_operation | apply calls_new_operation | ]
+  | |- VU _ (complete_task ?t ?r ?b ?s) => apply (VU_lift _ s); [apply V_complete_task | apply calls_complete_task | ]
+  | |- VU _ (cancel_all_queued ?i ?r ?s) => apply (VU_lift _ s); [apply V_cancel_all_queued | apply calls_cancel_all_queued | ]
+  | |- VU _ (enter ?t ?s) => apply (VU_lift _ s); [apply V_enter | apply calls_enter | ]
+  end.
+Ltac vu_go := inv_go vu_leaf t_VU.
+
+Lemma VU_get_next_task : forall c w b pr s, VU c s -> VU c (get_next_task c w b pr s).
+Proof. intros. unfold get_next_task. vu_go. Qed.
+
+Lemma VU_get_current_or_next : forall c w b pr s, VU c s -> VU c (get_current_or_next c w b pr s).
+Proof.
+  intros. unfold get_current_or_next.
+  inv_go ltac:(first [vu_leaf | lazymatch goal with |- VU _ (get_next_task _ _ _ _ _) => apply VU_get_next_task end]) t_VU.
+Qed.
+
+Ltac vu_leaf2 :=
+  first [ vu_leaf
+        | lazymatch goal with
+          | |- VU _ (get_next_task _ _ _ _ _) => apply VU_get_next_task
+          | |- VU _ (get_current_or_next _ _ _ _ _) => apply VU_get_current_or_next
+          end ].
+Ltac vu_go2 := inv_go vu_leaf2 t_VU.
+
+Lemma VU_sync_start : forall c a s, VU c s -> VU c (sync_start c a s).
+Proof.
+  intros c a s H. apply sync_start_closed; try exact H; intros; vu_go2.
+Qed.
+
+Lemma VU_V : forall c s, VU c s -> V s.
+Proof. unfold VU. tauto. Qed.
+
+(* Execute: the call is new (not parked) *)
+Lemma alive_of_OTf : forall o t s, OTf o t s -> op_alive s o = true.
+Proof. unfold OTf, op_alive. intros o t s [y [Ey _]]. rewrite Ey. reflexivity. Qed.
+
+Lemma OTf_new_operation : forall t prio i m s, V s -> OTf (s_nops s) t (fst (new_operation t prio i m s)).
+Proof.
+  intros t prio i m s [_ [H1 _]]. unfold OTf, new_operation, upd_task. cbn.
+  rewrite (aget_app Nat.eqb), (notin_aget_None Nat.eqb nat_eqb_eq).
+  - cbn. rewrite Nat.eqb_refl. eauto.
+  - intro Hin. specialize (H1 _ Hin). lia.
+Qed.
+
+(* a new operation is created for the call, something internal happens, the call attaches to it *)
+Lemma V_attach_new : forall c t prio i S4 (F : state -> state),
+  (forall s, V s -> V (F s)) -> (forall s, s_calls (F s) = s_calls s) -> (forall s o t, OTf o t s -> OTf o t (F s)) ->
+  opark (aget Nat.eqb c (s_calls S4)) = None -> V S4 ->
+  V (wait_execution_begin c (s_nops S4) (F (fst (new_operation t prio i false S4)))).
+Proof.
+  intros c t prio i S4 F HF1 HF2 HF3 Hu HV.
+  apply V_wait_execution_begin.
+  - rewrite HF2, calls_new_operation. exact Hu.
+  - eapply alive_of_OTf. apply HF3. apply OTf_new_operation. exact HV.
+  - apply HF1. apply V_new_operation. exact HV.
+Qed.
+
+Lemma V_exec_start : forall c a s, opark (aget Nat.eqb c (s_calls s)) = None -> V s -> V (exec_start c a s).
+Proof.
+  intros c a s Hu HV. unfold exec_start.
+  assert (Hpc : PCf c (aget Nat.eqb c (s_calls s)) s) by reflexivity.
+  assert (Hside : forall S1, PCf c (aget Nat.eqb c (s_calls s)) S1 -> opark (aget Nat.eqb c (s_calls S1)) = None).
+  { intros S1 H1. unfold PCf in H1. rewrite H1. exact Hu. }
+  destruct (aget dkey_eqb (x_instance a, x_digest a) (s_inflight s)) as [t0|] eqn:Ei.
+  - cbv zeta.
+    set (S1 := get_or_create_invocation _ _ _).
+    assert (HV1 : V S1) by (unfold S1; v_go3).
+    assert (Hp1 : PCf c (aget Nat.eqb c (s_calls s)) S1) by (unfold S1; fr_go (PCf c (aget Nat.eqb c (s_calls s))) t_pc).
+    clearbody S1.
+    destruct (aget iref_eqb _ (t_ops (get_task S1 t0))) as [o|] eqn:Eo.
+    + (* the invocation is attached already: its operation is registered *)
+      apply V_wait_execution_begin; [apply Hside; exact Hp1| |exact HV1].
+      apply (aget_In iref_eqb iref_eqb_eq) in Eo. unfold get_task in Eo.
+      destruct (aget Nat.eqb t0 (s_tasks S1)) as [x|] eqn:Ex; [|destruct Eo].
+      destruct HV1 as [_ [_ [_ [_ [_ [_ HI]]]]]]. destruct (HI _ _ _ _ Ex Eo) as [y [Ey _]].
+      unfold op_alive. rewrite Ey. reflexivity.
+    + match goal with |- V (match ?N with _ => _ end) => rewrite (surjective_pairing N) end.
+      cbv beta iota. change (snd (new_operation ?t ?p ?i ?m S1)) with (s_nops S1).
+      match goal with |- V (wait_execution_begin c (s_nops S1) ?E) =>
+        let F := eval pattern (fst (new_operation t0 (x_prio a) (mkI (task_scq (emit (OGhost GSelAbandoned) s) t0) (x_keys a)) false S1)) in E in
+        lazymatch F with ?F' _ => apply (V_attach_new c _ _ _ S1 F') end end.
+      * intros; cbv beta; v_go3.
+      * intros; cbv beta; kc_go.
+      * intros; cbv beta; inv_go fail t_ot.
+      * apply Hside; exact Hp1.
+      * exact HV1.
+  - destruct (longest_prefix_pq s (x_plat a) (x_instance a)) as [p|].
+    + destruct (x_sel a) as [[[idx dur] timeout] l]. cbv zeta.
+      match goal with |- V (match new_operation _ _ _ _ ?S with _ => _ end) => set (S4 := S) end.
+      assert (HV4 : V S4) by (unfold S4; v_go3).
+      assert (Hp4 : PCf c (aget Nat.eqb c (s_calls s)) S4) by (unfold S4; fr_go (PCf c (aget Nat.eqb c (s_calls s))) t_pc).
+      clearbody S4.
+      match goal with |- V (match ?N with _ => _ end) => rewrite (surjective_pairing N) end.
+      cbv beta iota. change (snd (new_operation ?t ?p ?i ?m S4)) with (s_nops S4).
+      match goal with |- V (wait_execution_begin c (s_nops S4) (schedule ?t ?E)) =>
+        apply (V_attach_new c _ _ _ S4 (schedule t)) end.
+      * intros; v_go3.
+      * intros; kc_go.
+      * intros; inv_go fail t_ot.
+      * apply Hside; exact Hp4.
+      * exact HV4.
+    + apply V_ret_unparked; [|apply V_emit; exact HV]. exact Hu.
+Qed.
+
+Ltac vu_leaf3 :=
+  first [ vu_leaf2
+        | lazymatch goal with
+          | |- VU _ (sync_start _ _ _) => apply VU_sync_start
+          end ].
+Ltac vu_go3 := inv_go vu_leaf3 t_VU.
+
+Lemma VU_terminate_fold : forall c p l s waits,
+  VU c s -> VU c (fst (fold_left (fun (acc : state * list (nat * nat)) w =>
+        let '(s, waits) := acc in
+        if matches w p then
+          let s := mark_terminating w s in
+          match k_task (get_worker s w) with
+          | Some tk => (s, waits ++ [(tk, t_gen (get_task s tk))])
+          | None => (if k_wait (get_worker s w) then wake_up w s else s, waits)
+          end
+        else (s, waits)) l (s, waits))).
+Proof.
+  intros c p l s waits H.
+  match goal with |- VU c (fst (fold_left ?g ?l ?a)) => apply (fold_left_pres (fun acc => VU c (fst acc)) g l) end;
+    [|exact H].
+  intros [s1 w1] w H1. cbn [fst] in *. vu_go3.
+Qed.
+
+Lemma get_call_aget : forall s c, get_call s c = match aget Nat.eqb c (s_calls s) with Some x => x | None => PDone end.
+Proof. reflexivity. Qed.
+
+Lemma V_step_core : forall e s,
+  (is_start e = true -> aget Nat.eqb (ev_call e) (s_calls s) = None) -> V s -> V (step_core e s).
+Proof.
+  intros e s Hfresh HV.
+  assert (Hstart : is_start e = true -> VU (ev_call e) s).
+  { intro Hs. split; [exact HV|]. rewrite (Hfresh Hs). reflexivity. }
+  destruct e; cbn [is_start ev_call] in *; unfold step_core.
+  - (* Execute *) apply V_exec_start; [rewrite calls_enter, (Hfresh eq_refl); reflexivity|apply V_enter; exact HV].
+  - apply (VU_V c). specialize (Hstart eq_refl). vu_go3.
+  - apply (VU_V c). specialize (Hstart eq_refl). vu_go3.
+  - apply (VU_V c). specialize (Hstart eq_refl). vu_go3.
+  - apply (VU_V c). specialize (Hstart eq_refl). vu_go3.
+  - apply (VU_V c). specialize (Hstart eq_refl). vu_go3.
+  - apply (VU_V c). specialize (Hstart eq_refl). vu_go3.
+  - apply (VU_V c). specialize (Hstart eq_refl). cbv zeta.
+    match goal with |- VU _ (match ?x with _ => _ end) => rewrite (surjective_pairing x) end.
+    cbv beta iota. apply VU_setcall; [reflexivity|]. apply VU_terminate_fold. vu_go3.
+  - apply (VU_V c). specialize (Hstart eq_refl). vu_go3.
+  - apply (VU_V c). specialize (Hstart eq_refl). vu_go3.
+  - (* EEnter *)
+    cbv zeta. destruct (negb (at_gate s (get_call s c))); [exact HV|].
+    assert (HVe : V (enter t s)) by (apply V_enter; exact HV).
+    rewrite get_call_aget. destruct (aget Nat.eqb c (s_calls s)) as [p|] eqn:Ep; [|exact HVe].
+    assert (Hpe : aget Nat.eqb c (s_calls (enter t s)) = Some p) by (rewrite calls_enter; exact Ep).
+    destruct p; try exact HVe.
+    all: try (apply (VU_V c); assert (Hu : VU c (enter t s)) by (split; [exact HVe|rewrite Hpe; reflexivity]);
+              set (s1 := enter t s) in *; clearbody s1; vu_go3; fail).
+    + (* PWaitRecheck *)
+      destruct (op_alive (enter t s) name) eqn:Ea.
+      * apply V_wait_execution_begin; [rewrite Hpe; reflexivity|exact Ea|exact HVe].
+      * apply V_ret_unparked; [rewrite Hpe; reflexivity|exact HVe].
+    + apply V_stream_iter; [rewrite Hpe; reflexivity|exact HVe].
+    + apply V_stream_return; [rewrite Hpe; reflexivity|exact HVe].
+    + apply V_stream_return; [rewrite Hpe; reflexivity|exact HVe].
+  - (* ETimer *)
+    cbv zeta. destruct (at_gate s (get_call s c)); [exact HV|].
+    rewrite get_call_aget. destruct (aget Nat.eqb c (s_calls s)) as [p|] eqn:Ep; [|exact HV].
+    assert (Hpe : aget Nat.eqb c (s_calls (enter t s)) = Some p) by (rewrite calls_enter; exact Ep).
+    assert (HVe : V (enter t s)) by (apply V_enter; exact HV).
+    destruct p; try exact HV.
+    all: try (apply (VU_V c); assert (Hu : VU c (enter t s)) by (split; [exact HVe|rewrite Hpe; reflexivity]);
+              set (s1 := enter t s) in *; clearbody s1; vu_go3; fail).
+    apply V_stream_iter; [rewrite Hpe; reflexivity|exact HVe].
+  - (* ECancel *)
+    cbv zeta. destruct (at_gate s (get_call s c)); [exact HV|].
+    rewrite get_call_aget. destruct (aget Nat.eqb c (s_calls s)) as [p|] eqn:Ep; [|exact HV].
+    destruct p; try exact HV.
+    all: try (apply (VU_V c); assert (Hu : VU c s) by (split; [exact HV|rewrite Ep; reflexivity]); vu_go3; fail).
+    apply V_setcall_same; [rewrite Ep; reflexivity|exact HV].
+Qed.
+
+Lemma V_auto_fold : forall l s,
+  NoDup (map fst l) -> (forall c p, In (c, p) l -> aget Nat.eqb c (s_calls s) = Some p) ->
+  V s -> V (fold_left auto_step l s).
+Proof.
+  induction l as [|[c' p'] l IH]; intros s Hnd Hin HV; cbn [fold_left]; [exact HV|].
+  inversion Hnd as [|? ? Hnotin Hnd']; subst. cbn [fst] in Hnotin.
+  assert (Hc' : aget Nat.eqb c' (s_calls s) = Some p') by (apply Hin; left; reflexivity).
+  apply IH; [exact Hnd'| |].
+  - intros c p Hcp. assert (Hne : c <> c') by (intros ->; apply Hnotin; apply (in_map fst) in Hcp; exact Hcp).
+    specialize (Hin c p (or_intror Hcp)). unfold auto_step. destruct p'; try exact Hin.
+    destruct (terminate_done s waits); [|exact Hin]. rewrite aget_calls_ret_other by auto. exact Hin.
+  - unfold auto_step. destruct p'; try exact HV. destruct (terminate_done s waits); [|exact HV].
+    apply V_ret_unparked; [rewrite Hc'; reflexivity|exact HV].
+Qed.
+
+Lemma V_auto_returns : forall s, V s -> V (auto_returns s).
+Proof.
+  intros s HV. rewrite auto_returns_fold. pose proof HV as [H0 _]. apply V_auto_fold; [exact H0| |exact HV].
+  intros c p Hin. apply (In_aget_NoDup Nat.eqb nat_eqb_eq); assumption.
+Qed.
+
+Lemma V_step : forall s e h,
+  (is_start e = true -> aget Nat.eqb (ev_call e) (s_calls s) = None) -> V s -> V (fst (step s (e, h))).
+Proof.
+  intros s e h Hf HV. unfold step. cbn [fst snd].
+  eapply V_frame; [reflexivity|reflexivity|reflexivity|reflexivity|]. apply V_auto_returns. apply V_step_core.
+  - exact Hf.
+  - eapply V_frame; [ | | | |exact HV]; reflexivity.
+Qed.
+
+Lemma V_init : forall cfg t0, V (init cfg t0).
+Proof.
+  intros. unfold V, init, op_alive. cbn. v_split; try constructor; intros; try discriminate; try contradiction.
+Qed.
+
+Lemma V_run : forall evs s U,
+  keys_in U s -> fresh_calls U evs -> V s -> V (fst (run s evs)).
+Proof.
+  induction evs as [|[e h] evs IH]; intros s U Hk Hf HV; [exact HV|].
+  cbn [run]. destruct (step s (e, h)) as [s1 o] eqn:Es. destruct (run s1 evs) as [s2 os] eqn:Er. cbn [fst].
+  replace s2 with (fst (run s1 evs)) by (rewrite Er; reflexivity).
+  assert (Hs1 : s1 = fst (step s (e, h))) by (rewrite Es; reflexivity).
+  cbn [fresh_calls] in Hf.
+  apply (IH s1 (if is_start e then ev_call e :: U else U)).
+  - subst s1. apply keys_in_step. exact Hk.
+  - destruct (is_start e); tauto.
+  - subst s1. apply V_step; [|exact HV]. intro Hs. rewrite Hs in Hf. destruct Hf as [Hnotin _].
+    destruct (aget Nat.eqb (ev_call e) (s_calls s)) eqn:Eg; [|reflexivity]. exfalso. apply Hnotin. apply Hk.
+    eapply aget_Some_in_keys; [exact nat_eqb_eq|exact Eg].
+Qed.
+
+(* waiters: in every reachable state (calls numbered freshly) ... *)
+Lemma waiters_all : forall cfg t0 evs, fresh_calls [] evs -> V (fst (run (init cfg t0) evs)).
+Proof.
+  intros cfg t0 evs Hf. apply (V_run evs (init cfg t0) []); [|exact Hf|apply V_init].
+  intros c Hc. destruct Hc.
 Qed.
